@@ -12,7 +12,7 @@ def run(ctx):
     for be in backends:
         lib = build.build_lib(be)
         ctx.configs.append(lib["desc"])
-        exe = build.build_prog("c06", ["harness/c06.c", "harness/sysrand.c", "ref/ref.c"], lib, opt="-O2")
+        exe = build.build_prog("c06", ["harness/c06.c", "harness/cpp_shim.cpp", "harness/sysrand.c", "ref/ref.c"], lib, opt="-O2")
         lpc = build.build_prog("lpc_modes", ["harness/lpc_modes.c", "harness/sysrand.c", "ref/ref.c"], lib,
                                link=["-Wl,--wrap=ascon_permute"])
         main = be == "asm"
